@@ -205,6 +205,9 @@ type Stats struct {
 	// the first F output bytes). LZHUF.C leaves that region uninitialised, so the format does not
 	// define what such a stream decodes to; this decoder yields zero bytes there.
 	Undefined int
+	// UndefMask[i] is true when output byte i is (a copy of a copy of ...) such an undefined window
+	// byte: its value is not determined by the stream. All other output bytes are.
+	UndefMask []bool
 }
 
 // Decode decodes a raw LZHUF stream (4 byte LE size + data). It returns the
@@ -235,6 +238,10 @@ func decode(in []byte, st *Stats) (out []byte, consumed int, err error) {
 		text[i] = ' '
 	}
 	r := rN - rF
+	var undef [rN]bool // window positions whose content the format does not define (yet)
+	for i := rN - rF; i < rN; i++ {
+		undef[i] = true
+	}
 	bi := &bitIn{b: in[4:]}
 	// never allocate by the declared size alone: the output is bounded by what the input bits can
 	// encode (one symbol of at most rF bytes per bit)
@@ -256,10 +263,12 @@ func decode(in []byte, st *Stats) (out []byte, consumed int, err error) {
 		if c < 256 {
 			out = append(out, byte(c))
 			text[r] = byte(c)
+			undef[r] = false
 			r = (r + 1) & (rN - 1)
 			if st != nil {
 				st.Literals++
 				st.LastLen = 1
+				st.UndefMask = append(st.UndefMask, false)
 			}
 			continue
 		}
@@ -291,6 +300,10 @@ func decode(in []byte, st *Stats) (out []byte, consumed int, err error) {
 			ch := text[idx]
 			out = append(out, ch)
 			text[r] = ch
+			undef[r] = undef[idx]
+			if st != nil {
+				st.UndefMask = append(st.UndefMask, undef[idx])
+			}
 			r = (r + 1) & (rN - 1)
 		}
 	}
